@@ -1807,6 +1807,9 @@ stream_decoder_mt_end(void *coder_ptr, const lzma_allocator *allocator)
 	lzma_filters_free(coder->filters, allocator);
 	lzma_index_hash_end(coder->index_hash, allocator);
 
+	mythread_cond_destroy(&coder->cond);
+	mythread_mutex_destroy(&coder->mutex);
+
 	lzma_free(coder, allocator);
 	return;
 }
